@@ -354,6 +354,17 @@ class Interp:
             (ba, da), (bb, db) = base_and_dels(sa[0][1]), base_and_dels(sb[0][1])
             if ba == bb and da != db:
                 return False
+        # one side is explicit (n items), the other has opaque parts around m explicit items:
+        #   m > n: the other side is longer;   m == n: equal exactly when every opaque part is empty and the items agree
+        for x, y in ((sa, sb), (sb, sa)):
+            if all(s[0] == "i" for s in x) and any(s[0] == "o" for s in y):
+                n, m = len(x), sum(1 for s in y if s[0] == "i")
+                if m > n:
+                    return False
+                if m == n:
+                    empties = [SBool(self.seq_len_term(s[1]) == 0) for s in y if s[0] == "o"]
+                    items = [self.eq(u[1], v[1]) for u, v in zip(x, [s for s in y if s[0] == "i"])]
+                    return self.and_all(empties + items)
         raise Unsupported("equality of opaque sequences with different structure: %r vs %r" % (ka, kb))
 
     def contains(self, item, cont):
@@ -919,7 +930,7 @@ class Interp:
             return str(v)
         if isinstance(v, MethodResult) and not self.has_sym(v.value):
             return "dict_%s(%r)" % (v.kind, v.value)
-        if isinstance(v, (Obj, PProd, list, tuple, dict, OSeq)):
+        if isinstance(v, (Obj, PProd, list, tuple, dict, OSeq, PyRaise)):
             return self.fresh_str("fmt")     # message text only: unconstrained string (over-approximation)
         raise Unsupported("format of %s" % type(v).__name__)
 
@@ -1841,6 +1852,9 @@ class Interp:
         if isinstance(o, _re.Pattern) and m in ("match", "search", "fullmatch", "sub") and not o.flags & ~_re.UNICODE:
             # compiled pattern: same as the module-level function with its pattern text
             return self.call_external("re." + m, [o.pattern] + list(args), kwargs)
+        import logging as _logging
+        if isinstance(o, _logging.Logger) and m in ("debug", "info", "warning", "error", "critical", "exception", "log"):
+            return None         # logging calls are no-ops (listed in the trusted base)
         # foreign concrete object: native call when every argument is concrete
         if any(self.has_sym(a) for a in args) or any(self.has_sym(a) for a in kwargs.values()):
             raise Unsupported("native method %s.%s with symbolic argument" % (type(o).__name__, m))
